@@ -917,7 +917,19 @@ pub fn key(rng: &mut Rng) -> String {
 }
 
 pub fn payload(rng: &mut Rng) -> SDS {
-    let b: Vec<u8> = match rng.below(22) {
+    let x = rng.below(200);
+    payload_small(rng, x)
+}
+
+fn payload_small(rng: &mut Rng, x: u64) -> SDS {
+    let b: Vec<u8> = match x {
+        // input alphabet: values at and around the SDS inline limit, long values
+        190 | 191 => (0..23).map(|i| b'a' + (i % 26) as u8).collect(),
+        192 => (0..24).map(|i| b'a' + (i % 26) as u8).collect(),
+        193 => (0..22).map(|i| (i * 11 + 128) as u8).collect(),
+        194 => (0..100).map(|i| (i * 7) as u8).collect(),
+        195 => (0..4096).map(|i| (i % 251) as u8).collect(),
+        x if x >= 22 => return payload_small(rng, x % 22),
         0 => vec![],
         1 => vec![0, 255, 10, 13],
         2 => b"v1".to_vec(),
